@@ -1,8 +1,8 @@
 """Harness table: which proof harnesses decide which property, in which tier, and what each one
 encodes.  The text here is copied into the evidence file of every run."""
 
-def H(name, tier="quick", functions=(), domain="", bound="", assume=(), solver="cadical", timeout=900, draws="", fallback=None, unwind=0):
-    d = {"unwind": unwind, "name": name, "tier": tier, "functions": list(functions), "domain": domain, "bound": bound,
+def H(name, tier="quick", functions=(), domain="", bound="", assume=(), solver="cadical", timeout=900, draws="", fallback=None, unwind=0, cross_solver=False):
+    d = {"cross_solver": cross_solver, "unwind": unwind, "name": name, "tier": tier, "functions": list(functions), "domain": domain, "bound": bound,
          "assume": list(assume), "solver": solver, "timeout": timeout, "draws": draws}
     if fallback:
         d["fallback"] = fallback
@@ -50,7 +50,7 @@ PROPERTY_META["C06"] = {
 
 # ---------------------------------------------------------------- C07
 TABLE["C07"] = [
-    H("c07_pair_laws", functions=["<HandRank as Ord>::cmp", "PartialOrd::{partial_cmp,lt,le,gt,ge}", "derived PartialEq",
+    H("c07_pair_laws", cross_solver=True, functions=["<HandRank as Ord>::cmp", "PartialOrd::{partial_cmp,lt,le,gt,ge}", "derived PartialEq",
                                  "HandRank::from"],
       domain="a, b: every ordered pair of u16", bound="loop-free; whole input type", draws="a,b:u16"),
     H("c07_transitive", functions=["<HandRank as Ord>::cmp", "HandRank::from"], domain="a, b, c: every triple of u16",
@@ -179,7 +179,7 @@ PROPERTY_META["C16"] = {
 
 # ---------------------------------------------------------------- C17
 TABLE["C17"] = [
-    H("c17_chen", functions=["Two::chen_formula (f32 arithmetic, max, ceil, cast)", "get_gap", "high_card", "is_connector", "is_pocket_pair",
+    H("c17_chen", cross_solver=True, functions=["Two::chen_formula (f32 arithmetic, max, ceil, cast)", "get_gap", "high_card", "is_connector", "is_pocket_pair",
                             "is_suited", "is_suited_connector", "<Two as Shifty>::shift_suit", "Two::sort"],
       domain="all 52 x 51 ordered pairs of distinct cards", bound="whole domain; unwind 4 (sort of 2)", draws="(r,s)*2"),
     H("c17_points", functions=["PokerCard::get_chen_points"], domain="all 52 cards and blank", bound="whole domain", draws="r,s:u8"),
@@ -279,8 +279,11 @@ def WIRING(sizes=("five", "six", "seven"), validated=("five", "six", "seven")):
     return out
 
 # ---------------------------------------------------------------- C01
+C02_HIST_FIVE = H("c01_five_history", timeout=1500, functions=["Five::{hand_rank_value, hand_rank_value_and_hand, hand_rank_value_validated, hand_rank} on three hands, then on a fourth"],
+      domain="four five-card hands of distinct real cards (any may coincide)", bound="histories of length 4 above the five-card primitive; unwind 9",
+      assume=["the five-card primitive is an arbitrary function with pre-drawn results (wiring stub): state kept above it (memo, cache) is exposed"], draws="((r,s)*7, fv:u16)*4")
 TABLE["C01"] = [
-    H("c01_flush_any_order", solver="kissat", timeout=1800, functions=EVAL, domain="five distinct cards of one suit, any slot order (5,148 hands x 120 orders)", bound="whole domain; unwind 14", draws="(r,s)*5"),
+    H("c01_flush_any_order", cross_solver=True, solver="kissat", timeout=1800, functions=EVAL, domain="five distinct cards of one suit, any slot order (5,148 hands x 120 orders)", bound="whole domain; unwind 14", draws="(r,s)*5"),
     H("c01_distinct_any_order", solver="kissat", timeout=1800, functions=EVAL, domain="five distinct cards, five distinct ranks, not one suit, any slot order (1,312,272 hands x 120)", bound="whole domain; unwind 14", draws="(r,s)*5"),
     H("c01_paired_sorted", solver="kissat", timeout=1800, functions=EVAL, domain="five distinct cards with a repeated rank, slots in descending card order (1,281,540 hands, 1 order each)", bound="whole domain; unwind 14 (13-step binary search + 1)", draws="(r,s)*5"),
     H("c01_folds_swap", solver="kissat", timeout=1800, functions=["Five::and_bits", "or_bits", "or_rank_bits", "multiply_primes", "is_flush"], domain="five distinct cards, any order, any adjacent slot pair swapped", bound="loop-free; whole domain", draws="(r,s)*5, k:u8"),
@@ -290,7 +293,7 @@ TABLE["C01"] = [
     H(f"c01_paired_any_order_r{j:02d}", tier=f"seeded:p4:{j}:13", solver="kissat", timeout=2700, functions=EVAL,
       domain=f"five distinct cards with a repeated rank, ANY slot order, partition: rank of slot 0 is {j}", bound="whole partition; unwind 14", draws="(r,s)*5")
     for j in range(13)
-] + WIRING(sizes=("five",), validated=("five",)) + [
+] + WIRING(sizes=("five",), validated=("five",)) + [C02_HIST_FIVE] + [
     H("c01_five_history_distinct", tier="thorough", solver="kissat", timeout=4000, functions=EVAL + ["Five::hand_rank_value_validated", "Five::is_valid"],
       domain="two hands of five distinct cards with five distinct ranks (flush or not), any slot orders: rank the first (both entry points), then the second",
       bound="histories of length 2 on the table path of the REAL evaluator; unwind 14", draws="(r,s)*5, (r,s)*5"),
@@ -330,8 +333,10 @@ PROPERTY_META["C04"] = {
 # ---------------------------------------------------------------- C05
 FINDSTUB = ["Five::find_in_products replaced by its contract 'returns some index < 4888' (decided on the real function by c05_find_in_products)"]
 TABLE["C05"] = [
-    H("c05_find_in_products", solver="kissat", functions=["Five::find_in_products", "lookups::PRODUCTS"], domain="key: every usize",
+    H("c05_find_in_products", cross_solver=True, solver="kissat", functions=["Five::find_in_products", "lookups::PRODUCTS"], domain="key: every usize",
       bound="unwind 14 (13-step binary search over 4888 entries, unwinding assertion on)", draws="key:usize"),
+    H("c05_find_history", solver="kissat", timeout=1800, functions=["Five::find_in_products called four times"], domain="two arbitrary usize keys, then the largest and the smallest product",
+      bound="histories of length 4; unwind 14", draws="k0:usize, k1:usize"),
     H("c05_blank_five", solver="kissat", timeout=1800, functions=EVAL + ["HandRank::from"],
       domain="five slots over " + CARDBLANK + ", at least one blank (53^5 - 52^5 ordered arrays)", bound="whole domain; unwind 14", draws="(r,s)*5, r=13 is blank"),
     H("c05_five_total", solver="kissat", timeout=1800, functions=EVAL, domain="five slots over " + CARDBLANK + " (all 53^5 ordered arrays)",
@@ -374,10 +379,13 @@ HISTNOTE = ["the ranking primitive of the hand size is an arbitrary function wit
             "natively the reference is the best five-card value over all subsets and all ordered pairs of hands from a small two-suit pool are run as well"]
 C02_HIST = [
     H("c02_six_history", timeout=1500, functions=["Six::{hand_rank_value, hand_rank_value_and_hand, hand_rank_value_validated, hand_rank} called on one hand, then on another"],
-      domain="two six-card hands of distinct real cards (any overlap, any order): every entry point on the first, then every entry point on the second",
-      bound="histories of length 2 (a one-entry memo shows; deeper caches would need longer sequences); unwind 9", assume=HISTNOTE, draws="(r,s)*7, (r,s)*7, fv0, fv1:u16"),
+      domain="four six-card hands of distinct real cards (any of them may coincide, any order): every entry point on the first three, then every entry point on the fourth",
+      bound="histories of length 4 (patterns X,Y,X,X / X,Y,X,Y included; caches that need longer sequences, or counters that need 65,536 calls, are outside); unwind 9", assume=HISTNOTE, draws="((r,s)*7, fv:u16)*4"),
     H("c02_seven_history", timeout=1500, functions=["Seven::{hand_rank_value, hand_rank_value_and_hand, hand_rank_value_validated, hand_rank} called on one hand, then on another"],
-      domain="two seven-card hands of distinct real cards", bound="histories of length 2; unwind 9", assume=HISTNOTE, draws="(r,s)*7, (r,s)*7, fv0, fv1:u16"),
+      domain="four seven-card hands of distinct real cards (any may coincide)", bound="histories of length 4; unwind 9", assume=HISTNOTE, draws="((r,s)*7, fv:u16)*4"),
+    H("c01_five_history", timeout=1500, functions=["Five::{hand_rank_value, hand_rank_value_and_hand, hand_rank_value_validated, hand_rank} on three hands, then on a fourth"],
+      domain="four five-card hands of distinct real cards (any may coincide)", bound="histories of length 4 above the five-card primitive (the primitive itself: c01_five_history_distinct, thorough); unwind 9",
+      assume=HISTNOTE, draws="((r,s)*7, fv:u16)*4"),
 ]
 TABLE["C02"] = C02_ABS + C02_HIST + C02_REAL
 PROPERTY_META["C02"] = {
